@@ -35,7 +35,9 @@ META = dict(
          "different certificate blobs per key: synthetic ones with different nonce/serial/key id/validity plus the "
          "bundled *-cert.pub, loaded via load_certificate(Message|string|path), class(data=cert blob), from_path; "
          "pairwise ==/!=/hash, transitivity through a plain object, set/dict de-duplication) and across "
-         "different keys; every creating open of a new key file is observed by the audit hook / os.open wrapper "
+         "different keys, including hand-built pairs differing in exactly one public component (RSA exponent with the "
+         "same modulus, RSA modulus with the same exponent, ECDSA P vs -P, other point, other curve, Ed25519 one bit): "
+         "unequal, different encoding/fingerprints, not found under each other in dict/set; every creating open of a new key file is observed by the audit hook / os.open wrapper "
          "under umasks 0, 0o022, 0o077 and random ones and the final stat is checked. Holds for the executions "
          "produced only.",
     note="Pre-existing target files are exercised (content round trip) but their mode is not judged. Writing with "
@@ -707,6 +709,131 @@ def cert_variants(ctx, fams, tmpdir):
                           dict(kind=fam.kind, family=fam.label, set_size=nset, dict_size=ndict, objects=len(everything)))
 
 
+# --------------------------------------------------------------------------
+# B3. sensitivity of ==/hash to EVERY public component: pairs of keys differing in exactly one
+# --------------------------------------------------------------------------
+FIELD_PRIME = {256: 2 ** 256 - 2 ** 224 + 2 ** 192 + 2 ** 96 - 1, 384: 2 ** 384 - 2 ** 128 - 2 ** 96 + 2 ** 32 - 1,
+               521: 2 ** 521 - 1}
+
+
+def rsa_blob(e, n):
+    return ko.w_string("ssh-rsa") + ko.w_mpint(e) + ko.w_mpint(n)
+
+
+def ec_blob(bits, x, y):
+    nb = (bits + 7) // 8
+    nm = "nistp%d" % bits
+    return ko.w_string("ecdsa-sha2-" + nm) + ko.w_string(nm) + ko.w_string(b"\x04" + x.to_bytes(nb, "big") + y.to_bytes(nb, "big"))
+
+
+def must_differ(ctx, kind, component, ka, kb, detail):
+    """ka and kb hold different public key material (one component differs): they must not be equal, must not
+    share their public encoding / fingerprints, and must not be found under each other's key in a dict/set.
+    (Equal hashes alone are legal for unequal objects: counted, not judged.)"""
+    ctx.count("one_component_pairs")
+    ctx.count("one_component_pairs_%s_%s" % (kind, component.replace(" ", "_")))
+    probs = []
+    try:
+        if ka == kb or kb == ka or not (ka != kb) or not (kb != ka):
+            probs.append("==")
+        if ka.asbytes() == kb.asbytes():
+            probs.append("asbytes")
+        if ka.get_fingerprint() == kb.get_fingerprint() or ka.fingerprint == kb.fingerprint:
+            probs.append("fingerprint")
+        if kb in {ka: 1} or ka in {kb: 1} or len({ka, kb}) != 2:
+            probs.append("dict/set lookup")
+        if hash(ka) == hash(kb):
+            ctx.count("equal_hash_for_different_keys")
+    except Exception as e:
+        ctx.violation("comparison of different keys raised " + ko.exc_sig(e), "==/hash raised",
+                      dict(kind=kind, component=component, detail=detail, error=repr(e)[:200]))
+        return
+    if probs:
+        ctx.violation("keys differing only in %s are not told apart (%s): %s" % (component, kind, "+".join(probs)),
+                      "two keys whose public material differs in one component compare equal / collide",
+                      dict(kind=kind, component=component, detail=detail, a=ka.asbytes(), b=kb.asbytes(), problems=probs))
+
+
+def routes(cls, blob):
+    """the same public material through three constructors"""
+    return [("class(data=)", lambda: cls(data=blob)), ("class(msg=)", lambda: cls(msg=Message(blob))),
+            ("from_type_string", lambda: paramiko.PKey.from_type_string(ko.blob_name(blob), blob))]
+
+
+def one_component_pairs(ctx, fams):
+    rng = ctx.rng
+    by_kind = {}
+    for f in fams:
+        by_kind.setdefault(f.kind, []).append(f)
+
+    def pair(kind, component, cls, blob_a, blob_b, detail):
+        ra, rb = routes(cls, blob_a), routes(cls, blob_b)
+        for i, (na, ca) in enumerate(ra):
+            nb, cb = rb[(i + rng.randrange(3)) % 3]
+            ctx.case(("onecomp", kind, component, na, nb, blob_a, blob_b),
+                     sample=samp("onecomp-" + kind + component, True,
+                                 dict(scenario="keys differing in one public component", kind=kind, component=component,
+                                      route_a=na, route_b=nb, blob_a=blob_a, blob_b=blob_b)))
+            try:
+                ka, kb = ca(), cb()
+            except Exception as e:
+                ctx.count("one_component_pair_not_constructible")
+                ctx.note("one_component_unconstructible_example", "%s %s: %r" % (kind, component, e))
+                return
+            must_differ(ctx, kind, component, ka, kb, dict(detail, route_a=na, route_b=nb))
+            # and the same material through two routes is one key
+            k2 = ra[(i + 1) % 3][1]()
+            ctx.count("one_component_same_material_checks")
+            if not (ka == k2) or hash(ka) != hash(k2):
+                ctx.violation("same public material through two constructors is not equal (%s)" % kind, "== / hash differ",
+                              dict(kind=kind, blob=blob_a, route_a=na, route_b=ra[(i + 1) % 3][0]))
+
+    for fam in by_kind.get("rsa", []):
+        nums = fam.pub.public_numbers()
+        e, n = nums.e, nums.n
+        for e2 in [x for x in (3, 17, 257, 65537, 65539) if x != e]:
+            pair("rsa", "the public exponent", paramiko.RSAKey, rsa_blob(e, n), rsa_blob(e2, n), dict(family=fam.label, e=e, e2=e2))
+        others = [o.pub.public_numbers().n for o in by_kind["rsa"] if o.pub.public_numbers().n != n]
+        for n2 in others[:2] + [n + 2, n ^ (1 << (n.bit_length() // 2))]:
+            if n2 % 2 == 0:
+                n2 += 1
+            pair("rsa", "the modulus", paramiko.RSAKey, rsa_blob(e, n), rsa_blob(e, n2), dict(family=fam.label))
+    for kind, lst in by_kind.items():
+        if not kind.startswith("ecdsa"):
+            continue
+        bits = int(kind[5:])
+        for fam in lst:
+            pn = fam.pub.public_numbers()
+            pair("ecdsa", "the y coordinate", paramiko.ECDSAKey, ec_blob(bits, pn.x, pn.y),
+                 ec_blob(bits, pn.x, FIELD_PRIME[bits] - pn.y), dict(family=fam.label, note="P and -P"))
+            o = ko.gen_private(kind, rng).public_key().public_numbers()
+            pair("ecdsa", "the point", paramiko.ECDSAKey, ec_blob(bits, pn.x, pn.y), ec_blob(bits, o.x, o.y), dict(family=fam.label))
+            for obits in (256, 384, 521):
+                if obits != bits:
+                    o = ko.gen_private("ecdsa%d" % obits, rng).public_key().public_numbers()
+                    pair("ecdsa", "the curve", paramiko.ECDSAKey, ec_blob(bits, pn.x, pn.y), ec_blob(obits, o.x, o.y),
+                         dict(family=fam.label, other_curve=obits))
+    for fam in by_kind.get("ed25519", []):
+        raw = ko.Reader(fam.blob)
+        raw.string()
+        pk = raw.string()
+        for bit in (0, 7, 128, 255, rng.randrange(256)):
+            pk2 = bytearray(pk)
+            pk2[bit // 8] ^= 1 << (bit % 8)
+            pair("ed25519", "the public key bytes", paramiko.Ed25519Key, fam.blob,
+                 ko.w_string("ssh-ed25519") + ko.w_string(bytes(pk2)), dict(family=fam.label, bit=bit))
+        o = ko.ref_blob(ko.gen_private("ed25519", rng).public_key())
+        pair("ed25519", "the public key bytes", paramiko.Ed25519Key, fam.blob, o, dict(family=fam.label, other="fresh key"))
+    # across types
+    kinds = [k for k in by_kind]
+    for i in range(len(kinds)):
+        for j in range(i + 1, len(kinds)):
+            a, b = by_kind[kinds[i]][0], by_kind[kinds[j]][0]
+            if tag(a) != tag(b):
+                must_differ(ctx, tag(a) + "/" + tag(b), "the key type", ko.key_class(a.kind)(data=a.blob),
+                            ko.key_class(b.kind)(data=b.blob), dict(a=a.label, b=b.label))
+
+
 def run(ctx):
     if ctx.guard(ko.selfcheck) is None:
         return
@@ -724,6 +851,7 @@ def run(ctx):
         equality_matrix(ctx, fams)
         cert_checks(ctx, fams)
         cert_variants(ctx, fams, tmpdir)
+        one_component_pairs(ctx, fams)
         umasks = [0, 0o022, 0o077, 0o002, 0o027]
         deadline = ctx.deadline(120, 420)
         for fam in fams:
@@ -778,3 +906,10 @@ def run(ctx):
     ctx.require("cert_pairs_same_key_different_cert", 400)
     ctx.require("cert_transitivity_checks", 400)
     ctx.require("cert_dedup_checks", 10)
+    ctx.require("one_component_pairs", 300)
+    ctx.require("one_component_pairs_rsa_the_public_exponent", 40)
+    ctx.require("one_component_pairs_rsa_the_modulus", 40)
+    ctx.require("one_component_pairs_ecdsa_the_y_coordinate", 20)
+    ctx.require("one_component_pairs_ecdsa_the_point", 20)
+    ctx.require("one_component_pairs_ecdsa_the_curve", 40)
+    ctx.require("one_component_pairs_ed25519_the_public_key_bytes", 30)
